@@ -526,25 +526,6 @@ def run_c14(rng, tier, verdict, counters, samples, seed, info):
                             override='server' if kind == 'client_ahead_probe' else '')
                 allcases.append((pi, case, dict(kind=kind, pair=name, family=family, dict_case=(name == 'dict-limit'))))
 
-    # ---- run the real code
-    outs = {}
-    for pi, (name, family, ta, tb, r) in enumerate(built):
-        cs = [c for (p, c, _) in allcases if p == pi]
-        inp = '\n'.join(json.dumps(c) for c in cs) + '\n'
-        try:
-            p = subprocess.run([r['bin'], r['sjson_a'], r['sjson_b']], input=inp.encode(), stdout=subprocess.PIPE, stderr=subprocess.PIPE, timeout=600)
-            lines = [json.loads(l) for l in p.stdout.decode().split('\n') if l.strip()]
-            err = p.stderr.decode()[-2000:]
-        except subprocess.TimeoutExpired:
-            lines, err = [], 'timeout'
-        if len(lines) != len(cs):
-            verdict.violation(dict(pair=name, schema_a=ta, schema_b=tb, got=len(lines), want=len(cs), stderr=err,
-                                   first_unanswered=cs[len(lines)] if len(lines) < len(cs) else None,
-                                   broken='pair harness crashed or produced a short output', how_to_run=f'{r["bin"]} {r["sjson_a"]} {r["sjson_b"]} < cases.jsonl'),
-                              f'harness: pair {name} crashed after {len(lines)} of {len(cs)} cases: {err[-200:]}', no_input=len(lines) >= len(cs))
-        for c, o in zip(cs, lines):
-            outs[c['id']] = o
-
     # ---- the model's decision for every (pair, direction, limit), evaluated inside Coq
     L = ['From Coq Require Import List NArith Bool.', 'From Stef Require Import Schema Reader Handshake.', 'Import ListNotations.', 'Open Scope N_scope.',
          'Definition b2n (b : bool) : N := if b then 1 else 0.', '']
@@ -574,6 +555,35 @@ def run_c14(rng, tier, verdict, counters, samples, seed, info):
         return len(allcases), 0, stats, extra
     model = dict(zip(keys, vals))
     extra['model_evaluations'] = len(keys)
+
+    # the options the model prescribes travel with the case: the harness also writes the records with
+    # exactly these options into memory and reads them with the server-side reader (no handshake, no
+    # transport), which tells a wrong handshake from a wrong codec (C01 / C04)
+    for (pi, c, meta) in allcases:
+        me = model_expect(model[(pi, c['client'], c['server'], c['maxdict'])][3])
+        if meta['kind'] == 'client_ahead_probe':
+            c['local'] = dict(schema=model[(pi, c['client'], c['server'], c['maxdict'])][1], descr=True)
+        elif me['cls'] >= 1:
+            c['local'] = dict(schema=me['schema'], descr=me['descr'])
+
+    # ---- run the real code
+    outs = {}
+    for pi, (name, family, ta, tb, r) in enumerate(built):
+        cs = [c for (p, c, _) in allcases if p == pi]
+        inp = '\n'.join(json.dumps(c) for c in cs) + '\n'
+        try:
+            p = subprocess.run([r['bin'], r['sjson_a'], r['sjson_b']], input=inp.encode(), stdout=subprocess.PIPE, stderr=subprocess.PIPE, timeout=600)
+            lines = [json.loads(l) for l in p.stdout.decode().split('\n') if l.strip()]
+            err = p.stderr.decode()[-2000:]
+        except subprocess.TimeoutExpired:
+            lines, err = [], 'timeout'
+        if len(lines) != len(cs):
+            verdict.violation(dict(pair=name, schema_a=ta, schema_b=tb, got=len(lines), want=len(cs), stderr=err,
+                                   first_unanswered=cs[len(lines)] if len(lines) < len(cs) else None,
+                                   broken='pair harness crashed or produced a short output', how_to_run=f'{r["bin"]} {r["sjson_a"]} {r["sjson_b"]} < cases.jsonl'),
+                              f'harness: pair {name} crashed after {len(lines)} of {len(cs)} cases: {err[-200:]}', no_input=len(lines) >= len(cs))
+        for c, o in zip(cs, lines):
+            outs[c['id']] = o
 
     how = 'tools/genpair.py <a.stef> <b.stef>; echo <case json> | build/pair_<key> build/pair_<key>.a.json build/pair_<key>.b.json ; model: outcome_code (handshake VCurrent ...) in build/c14_cases.v'
     distinct = set()
@@ -650,6 +660,19 @@ def run_c14(rng, tier, verdict, counters, samples, seed, info):
                     finding = ('server-decodes-other-records', f'record {k} of {len(exp)} (server got {len(got)})', (exp[k:k + 1] or [None])[0], (got[k:k + 1] or [None])[0])
                 elif o['server'].get('err') != 'eof':
                     finding = ('server-read-error', o['server'].get('err'))
+                lo = o.get('local')
+                if finding and lo and not diffs and not lo.get('panic') and \
+                        [strip_mask(x) for x in (lo.get('recs') or [])] == got and (lo.get('err') or '') == (o['server'].get('err') or '') and \
+                        (lo.get('write_err') or '') == (o.get('write_err') or ''):
+                    # the same records written with the model's options and read without handshake or
+                    # transport come out the same way: the codec's defect (C01 round trip / C04 evolution)
+                    stats['codec_defect_outside_C14'] += 1
+                    if len(extra.setdefault('delegated_to_C01_C04', [])) < 5:
+                        extra['delegated_to_C01_C04'].append(dict(case=c['id'], finding=finding[0], detail=str(finding[1]), expected=str(finding[2:3])[:300], got=str(finding[3:4])[:300],
+                                                                    schema_a=ta, schema_b=tb))
+                    finding = None
+                    counters['delegated_' + kind] += 1
+                    continue
         elif finding is None:
             # diverged / unrelated: must not get as far as sending data the server cannot decode
             if rel == 'same_counts':
